@@ -335,7 +335,7 @@ def gen_spec(rng, n_rows, kindpref=None):
             if q < 0.25:
                 fds.append(None)
             elif ew and q < 0.8:
-                d = {"method": rng.choice(["wlsq", "wlsq", "lsq", "WLSQ"])}
+                d = {"method": rng.choice(["wlsq", "wlsq", "lsq", "WLSQ", "Wlsq", "LSQ"])}
                 if rng.random() < 0.75:
                     d["weights"] = rng.choice([None, "linear", "quadratic", "cubic"])
                 fds.append(d)
@@ -411,7 +411,9 @@ def gen_case(ctx, k, big=False):
                 dm["template"], dm["deps"] = "ew", {"alpha": "lin", "beta": "lin"}
             else:
                 dm["template"] = "ew"
-        spec["fds"] = [{"method": "wlsq", "weights": wopts[(k // 10 + j) % 4]} for j in range(len(spec["dims"]))]
+        # ... and every accepted spelling of the method keyword (Distribution.fit dispatches on method.lower())
+        spellings = ["wlsq", "WLSQ", "lsq", "Wlsq", "LSQ", "wLsQ"]
+        spec["fds"] = [{"method": spellings[(k // 10 + j) % len(spellings)], "weights": wopts[(k // 10 + j) % 4]} for j in range(len(spec["dims"]))]
         if variant == "sorted":
             variant = "shuffled"
     if k % 10 == 3:
